@@ -267,7 +267,14 @@ func execC11(c C11Case, bound time.Duration) (facts map[string]bool, err error) 
 	}
 	for i := 0; i < nrecv; i++ {
 		var raw json.RawMessage
-		fl, rerr := receive(ctx, &raw)
+		var target interface{} = &raw
+		if i < len(frames) && i%2 == 0 {
+			var probe wireReply
+			if json.Unmarshal(frames[i], &probe) == nil && probe.Error != "" {
+				target = &map[string]int{} // an error frame's parameters must not be decoded into the caller's output value
+			}
+		}
+		fl, rerr := receive(ctx, target)
 		pre := fmt.Sprintf("receive %d: ", i)
 		if isTimeoutErr(rerr) {
 			return facts, fmt.Errorf("%sdid not return within %v although the server had sent %d bytes and closed", pre, bound, len(sent))
